@@ -13,7 +13,7 @@ StaticVariableManager::StaticVariableManager(Interpreter *interpreter)
 
 Variable *StaticVariableManager::find_static_variable(const std::string &name) {
     std::string static_key =
-        interpreter_->get_current_function_name() + "::" + name;
+        interpreter_->get_static_namespace() + "::" + name;
     auto it = static_variables_.find(static_key);
     if (it != static_variables_.end()) {
         return &it->second;
@@ -55,7 +55,7 @@ void StaticVariableManager::create_static_variable(const std::string &name,
 
     // static変数をユニークな名前で保存（関数名+変数名）
     std::string static_key =
-        interpreter_->get_current_function_name() + "::" + name;
+        interpreter_->get_static_namespace() + "::" + name;
     static_variables_[static_key] = var;
 }
 
